@@ -110,39 +110,48 @@ theorem cells_fold (tr : table.TextRenderer) (ff : Fmt.FloatFmt) : ∀ (cs : Lis
       | none => rfl
       | some t => simp [upd]
 
-theorem rowStep_agrees (tr : table.TextRenderer) (ff : Fmt.FloatFmt) (ws : List Nat) (row : List Table.Cell) :
-    rowStep tr ff (natsGo ws) (rowGo row)
+theorem rowStep_agrees (tr : table.TextRenderer) (ff : Fmt.FloatFmt) (ws : List Nat) (R : table.Row) (row : List Table.Cell)
+    (hR : RowRel R row) :
+    rowStep tr ff (natsGo ws) R
       = match Table.updWidths (rendOf tr) ws row with
         | some ws' => Outcome.ok (natsGo ws')
         | none => Outcome.panic idxPanic := by
-  unfold rowStep rowGo
+  unfold rowStep
+  rw [hR]
   have := cells_fold tr ff row [] ws
   simp only [List.nil_append, List.length_nil] at this
   rw [this]
   cases Table.updWidths (rendOf tr) ws row <;> rfl
 
 /-- the first pass over all rows is `widthsPass1` -/
-theorem pass1_agrees (tr : table.TextRenderer) (ff : Fmt.FloatFmt) : ∀ (rows : List (List Table.Cell)) (ws : List Nat),
-    foldlE (rowStep tr ff) (natsGo ws) (rows.map rowGo)
+theorem pass1_agrees (tr : table.TextRenderer) (ff : Fmt.FloatFmt) : ∀ (rows : List (List Table.Cell)) (Rs : List table.Row) (ws : List Nat),
+    RowsRel Rs rows →
+    foldlE (rowStep tr ff) (natsGo ws) Rs
       = match Table.widthsPass1 (rendOf tr) ws rows with
         | some ws' => Outcome.ok (natsGo ws')
         | none => Outcome.panic idxPanic := by
   intro rows
   induction rows with
-  | nil => intro ws; simp [foldlE, Table.widthsPass1]
+  | nil =>
+    intro Rs ws h
+    cases Rs with
+    | nil => simp [foldlE, Table.widthsPass1]
+    | cons _ _ => exact absurd h (by simp [RowsRel])
   | cons row rows ih =>
-    intro ws
-    rw [List.map_cons]
-    simp only [Table.widthsPass1]
-    have hr := rowStep_agrees tr ff ws row
-    cases hu : Table.updWidths (rendOf tr) ws row with
-    | none =>
-      rw [hu] at hr
-      exact foldlE_panic _ _ _ _ _ hr
-    | some ws' =>
-      rw [hu] at hr
-      rw [foldlE_ok _ _ _ _ _ hr]
-      exact ih ws'
+    intro Rs ws h
+    cases Rs with
+    | nil => exact absurd h (by simp [RowsRel])
+    | cons R Rs =>
+      simp only [Table.widthsPass1]
+      have hr := rowStep_agrees tr ff ws R row h.1
+      cases hu : Table.updWidths (rendOf tr) ws row with
+      | none =>
+        rw [hu] at hr
+        exact foldlE_panic _ _ _ _ _ hr
+      | some ws' =>
+        rw [hu] at hr
+        rw [foldlE_ok _ _ _ _ _ hr]
+        exact ih Rs ws' h.2
 
 /-! ## second pass -/
 
